@@ -123,6 +123,7 @@ Theorem C12_factory_read_as_required_refuted :
   exists a fb, key_loop (fun l => l) true (sort_desc (map (read_class false) [sPlain; sWithFac])) (sort_desc (map (read_class false) [sPlain; sWithFac])) [] None = Ok (a, fb)
                /\ valid_payload sWithFac [10] = true /\ dis_keys a fb [10] = Ok (sc_id sPlain).
 Proof. eexists. eexists. vm_compute. repeat split. Qed.
+Print Assumptions C12_factory_read_as_required_refuted.
 Example C12_factory_default_refused_today :
   is_ok (create_dis (fun l => l) src_dis_skip_noninit true (map (read_class src_dis_factory_is_default) [sPlain; sWithFac])) = false.
 Proof. vm_compute. reflexivity. Qed.
